@@ -64,6 +64,7 @@ type Ctx struct {
 	writeLog  []writeRec
 	inQuant   int
 	nanSyms   []string
+	topName   string
 }
 
 type writeRec struct {
@@ -173,7 +174,10 @@ func (c *Ctx) oblige(st *State, kind, label string, props []string, goal T, pos 
 	if goal.S == "true" {
 		// trivially discharged, still counted
 	}
-	fn := c.top.String()
+	fn := c.topName
+	if c.top != nil {
+		fn = c.top.String()
+	}
 	if c.fc != nil && c.fc.Variant != "" {
 		fn += "#" + c.fc.Variant
 	}
@@ -696,6 +700,9 @@ func (fr *Frame) get(v ssa.Value) Val {
 	case *ssa.Function:
 		return FuncV{Fn: k, Sig: k.Signature}
 	case *ssa.Global:
+		if ca, ok := fr.c.constGlobal(k); ok {
+			return ca
+		}
 		return OpaqueV{"global " + k.Name()}
 	case *ssa.Builtin:
 		return OpaqueV{"builtin " + k.Name()}
@@ -1046,6 +1053,8 @@ func (fr *Frame) load(st *State, addr Val, t types.Type, pos token.Pos) Val {
 			panic(vcErr("load of unknown cell %s", a.Key))
 		}
 		return v
+	case ConstElemPtr:
+		return sel(a.Arr.Term, a.Idx)
 	case OpaqueV:
 		// global variable: treated as an unknown of its type
 		c.note("read of " + a.Desc + " modelled as an unconstrained value")
@@ -1094,6 +1103,10 @@ func (fr *Frame) indexAddr(in *ssa.IndexAddr, st *State) Val {
 			return OpaqueV{"element of an array of non-scalars"}
 		}
 		return ElemPtr{b.ID, idx, b.Elem}
+	case ConstArr:
+		c.oblige(st, "bounds", "", nil, and(app(SBool, "<=", intLit(0), idx), app(SBool, "<", idx, intLit(int64(len(b.Elems))))), in.Pos(),
+			"index in range")
+		return ConstElemPtr{b, idx}
 	}
 	panic(vcErr("IndexAddr on %T", fr.get(in.X)))
 }
